@@ -1,5 +1,6 @@
 import Varint.Bridge.FOR
 import Varint.Bridge.FORDec
+import Varint.Bridge.Group
 import Varint.Bridge.RLE
 import Varint.Lemmas.PFOR
 import Varint.Lemmas.RLEH
@@ -154,5 +155,25 @@ theorem c_for_accessors_true (xs : List Nat) (g : FOR.Good xs) (rest : List Nat)
     · exact Varint.Bridge.FORDec.enc_lt xs g b hb
     · exact hrest b hb
   exact Varint.Bridge.FORDec.forAccessors_eq _ hb _ (for_accessor_true xs g rest)
+
+
+/-- **the group accessors on the translated C tell the truth** (`varintGroupGetSize`, `varintGroupGetFieldWidth`,
+    machine-translated): on the encoding of any 1..64 fields they return the encoded length and, for every field index,
+    the width its value was stored with -/
+theorem c_group_accessors_true (xs : List Nat) (h : Group.Ok xs) (rest : List Nat) (hrest : ∀ b ∈ rest, b < 256)
+    (fuel : Nat) (hf : 64 < fuel) :
+    Varint.Gen.C.groupGetSize fuel (Varint.Bridge.Tagged.bufOf (Group.enc xs ++ rest)) = some (Group.enc xs).length ∧
+    ∀ i, i < xs.length →
+      Varint.Gen.C.groupGetFieldWidth (Varint.Bridge.Tagged.bufOf (Group.enc xs ++ rest)) i =
+        Group.normW (xs.getD i 0) := by
+  have hb : ∀ b ∈ Group.enc xs ++ rest, b < 256 := by
+    intro b hb
+    rcases List.mem_append.mp hb with hb | hb
+    · exact Group.enc_lt xs h b hb
+    · exact hrest b hb
+  obtain ⟨g1, g2⟩ := group_accessors_true xs h rest
+  refine ⟨Varint.Bridge.Group.groupGetSize_eq _ hb _ g1 fuel hf, ?_⟩
+  intro i hi
+  exact Varint.Bridge.Group.groupGetFieldWidth_eq _ hb i _ (by have := h.2.1; omega) (g2 i hi)
 
 end Varint.Props.C16
